@@ -54,4 +54,15 @@ class Top:
     seen: list[Node] = field(init=False, default_factory=list, repr=False, compare=False)
 
 
-GRAMMARS = [([Lit, Memo, Pair], Node), ([Lit, Memo], Node), ([Lit, Memo, Pair, Top], Top), ([Lit, Block, Pair], Node)]
+def _column(i: int):
+    """one class per column, all made by the same factory: same module, same qualified name, different classes"""
+    @dataclass
+    class Column(Node):
+        row: Annotated[int, IntRange(0, i + 1)]
+    return Column
+
+
+COLUMNS = [_column(i) for i in range(3)]
+
+GRAMMARS = [([Lit, Memo, Pair], Node), ([Lit, Memo], Node), ([Lit, Memo, Pair, Top], Top), ([Lit, Block, Pair], Node),
+            ([Lit, Pair] + COLUMNS, Node)]
